@@ -11,7 +11,7 @@ import random
 import legacy_machine as M
 
 PROPERTY = "C18"
-LEAN_MODULE = "PyOak.Props.C18"
+LEAN_MODULE = "PyOak.Props.C18Transform"      # imports PyOak.Props.C18
 THEOREMS = ["PyOak.Legacy.C18." + t for t in [
     "inv_init", "inv_step_new", "inv_step_attach", "inv_step_detach", "inv_step_dup",
     "inv_step_replace", "inv_step_replace_partial", "inv_step_rwith_partial", "inv_step_rwith_parent_partial",
@@ -27,6 +27,13 @@ THEOREMS = ["PyOak.Legacy.C18." + t for t in [
     "detachGo_keeps", "detach_no_cycle", "rwith_open", "kidsPos_removed", "removed_invX", "replaceChild_none_inv",
     "replaceWith_inv_parent_none", "attach_roots", "commitOne_takeOver", "takeOver_attach_invX",
     "takeOver_parent_fails", "replaceWith_inv_root", "replaceWith_inv_parent_any", "replaceWith_inv",
+    # transform visitor / transformer = runs of primitive operations (Props/LegacyTrace.lean)
+    "primNode_tr", "primUnit_tr", "tKids_tr", "tFields_tr", "visitBody_tr", "visitGo_tr", "tvisit_tr",
+    "ruleTransform_tr", "execLoop_tr", "texec_tr",
+]] + ["PyOak.Legacy.C18T." + t for t in [
+    "tvisit_is_run", "texec_is_run", "tvisit_ok_allOk", "texec_ok_allOk",
+    "inv_tvisit_partial", "inv_texec_partial", "inv_stepX_partial", "inv_runX_partial",
+    "texec_unchanged", "stepX_texec_unchanged", "visitGo_quiet", "tvisit_quiet_unchanged", "tvisit_clone_swap_partial",
 ]]
 PARTIAL = [
     "inv_step / inv_run / inv_run_init: ALL operations of the model (construct / attach / detach / detach_self / "
@@ -34,15 +41,22 @@ PARTIAL = [
     "preserve the invariant whenever the call returned; no acyclicity hypothesis (on a heap with a cycle through the "
     "receiver the detach() inside replace_with does not return); side condition of construct / replace only: distinct "
     "child-field names, single fields hold at most one node",
-    "transform visitor and ASTTransformer.execute are not modelled in Lean (compositions of the above driven by user "
-    "callbacks): covered by the invariant oracle on the real objects only",
+    "transform visitor and ASTTransformer.execute (Model/LegacyTransform.lean, user callbacks = rule tables) are runs of "
+    "primitive operations (tvisit_is_run / texec_is_run), none of them rejected when the transformation returns "
+    "(tvisit_ok_allOk / texec_ok_allOk); inv_tvisit_partial / inv_texec_partial / inv_stepX_partial / inv_runX_partial: a "
+    "transformation that returns preserves Inv under the side condition of its constituent construct / replace steps "
+    "only (LOp.proved at the state of each step: distinct child-field names, single fields hold at most one node; "
+    "decidable ProvedRun, not derived from the shape of the visitor)",
+    "tvisit_clone_swap_partial: transform of an ATTACHED node with rules that match nothing replaces it by its clone (as "
+    "coded: generic_visit returns the clone); the hypothesis that the clone's subtree is detached after duplicate is "
+    "checked (decidable Quiet), not derived",
     "ancestors_chain covers ancestors(); get_depth / is_ancestor / calculated xpath are the same walk along `parent` and "
     "are compared with the structure by the oracle on the real objects, not by a separate theorem",
 ]
 RULE = ("seeded histories (25-45 generated operations + up to 3 operations built to be rejected) of construct "
         "(all child-field kinds, explicit / automatic ids, ensure_unique_id, create_as_duplicate, create_detached), "
         "attach, detach, detach_self, replace, replace_with(node | None), duplicate(clone | not), and in a second "
-        "population the transform visitor and ASTTransformer, over attached, detached and stale receivers and "
+        "population the transform visitor and ASTTransformer (also compared with the model: stepX), over attached, detached and stale receivers and "
         "arguments; admissible = no cycle, no object twice in a built value; after EVERY executed operation the "
         "dump of every object ever seen is compared with the model and the invariant is evaluated on the real "
         "objects; a history is non-trivial when >= 8 operations returned, of >= 3 kinds, and an attached tree of "
